@@ -87,6 +87,36 @@ func init() {
 	}
 }
 
+// ---------- hex (Config.AbsHex): text of symbolic bytes is abstract, hex.DecodeString inverts it ----------
+
+// declined: an intrinsic's answer "run the real function" (the call falls through to the SSA body).
+type declined struct{}
+
+func isDeclined(v Value) bool { _, d := v.(declined); return d }
+
+func init() {
+	intrinsics["encoding/hex.EncodeToString"] = func(m *Machine, a []Value) Value {
+		if !m.Cfg.AbsHex {
+			return declined{}
+		}
+		bs := m.sliceBytes(a[0].(SliceVal))
+		if _, ok := allConst(bs); ok {
+			return declined{}
+		}
+		return StrVal{Abs: &AbsStr{Ctor: "hex", Args: bs}}
+	}
+	intrinsics["encoding/hex.DecodeString"] = func(m *Machine, a []Value) Value {
+		s := a[0].(StrVal)
+		if s.Abs == nil {
+			return declined{}
+		}
+		if s.Abs.Ctor != "hex" {
+			m.unsupported("hex.DecodeString of a %s string", s.Abs.Ctor)
+		}
+		return TupleVal{m.bytesSlice(append([]*smt.Term(nil), s.Abs.Args...)), IfaceVal{}}
+	}
+}
+
 // ---------- bech32 (BIP-173 checksum) ----------
 
 const bech32Charset = "qpzry9x8gf2tvdw0s3jn54khce6mua7l"
